@@ -56,7 +56,10 @@ type CLI struct {
 	rng       *rand.Rand
 	line      []byte
 	EchoDelay time.Duration
-	mu        sync.Mutex
+	// DelayMax > 0: the device pauses a random time (whole microseconds) before each reply and
+	// before each prompt.
+	DelayMax time.Duration
+	mu       sync.Mutex
 }
 
 // NewCLI returns a device in mode start.
@@ -108,7 +111,7 @@ func (d *CLI) Input(b []byte, now time.Duration) []simnet.Seg {
 		line := string(d.line)
 		d.line = d.line[:0]
 		d.Log = append(d.Log, LineRec{T: now, Mode: d.Cur, Line: line})
-		segs = append(segs, simnet.Seg{B: []byte(d.NL)})
+		segs = append(segs, simnet.Seg{B: []byte(d.NL), Delay: d.pause()})
 		var r *Reply
 		switch {
 		case line == "":
@@ -128,10 +131,18 @@ func (d *CLI) Input(b []byte, now time.Duration) []simnet.Seg {
 				d.Cur = r.Next
 			}
 		}
-		segs = append(segs, simnet.Seg{B: []byte(d.Modes[d.Cur].Prompt)})
+		segs = append(segs, simnet.Seg{B: []byte(d.Modes[d.Cur].Prompt), Delay: d.pause()})
 	}
 
 	return coalesce(segs)
+}
+
+func (d *CLI) pause() time.Duration {
+	if d.DelayMax <= 0 {
+		return 0
+	}
+
+	return time.Duration(d.rng.Int64N(int64(d.DelayMax/time.Microsecond)+1)) * time.Microsecond
 }
 
 // coalesce merges adjacent plain segments so the transport's trickle splitter sees long runs.
